@@ -216,7 +216,16 @@ def generate(seed, tier="quick"):
     rnd.shuffle(owner_pool)
     big = tier == "thorough" and seed % 4 == 0  # larger AHBs for a quarter of the thorough runs
     requests = [_gen_request(rnd, "r0", world, cer, universe, owner_pool, big)]
-    if rnd.random() < 0.4:
+    if rnd.random() < 0.12:
+        # the caller validates the very same AHB objects a second time (afterwards, possibly in a new event loop):
+        # whatever the first validation did to them, every element's result still equals validating it alone
+        again = clone(requests[0])
+        again["rid"] = "r1"
+        again["start"], again["phase"] = (1_000_000, 0) if rnd.random() < 0.5 else (0, 1)
+        for both in (requests[0], again):
+            both["op"]["same_objects"] = True
+        requests.append(again)
+    elif rnd.random() < 0.4:
         if rnd.random() < 0.5:
             # the same AHB (same expressions and keys) with other inputs, validated by a second caller
             sibling = clone(requests[0])
